@@ -10,6 +10,7 @@ import (
 
 	tcpip "github.com/brewlin/net-protocol/protocol"
 	"github.com/brewlin/net-protocol/protocol/network/ipv4"
+	"github.com/brewlin/net-protocol/protocol/network/ipv6"
 	"github.com/brewlin/net-protocol/protocol/transport/tcp"
 	"github.com/brewlin/net-protocol/protocol/transport/udp"
 
@@ -575,6 +576,115 @@ func c09History(order []int, toggle string, closeIdx int, pkts []c09Pkt) (*c09Fa
 	return nil, probes, true
 }
 
+// ---------- address families: which UDP sockets see IPv4, which IPv6 ----------
+
+type c09DualKind struct {
+	name   string
+	v6sock bool          // created as an IPv6 socket
+	v6only bool          // with V6Only set
+	addr   tcpip.Address // bind address
+	getsV4 bool
+	getsV6 bool
+	rank   int // specific address 2, wildcard 1
+}
+
+var c09Mapped = func(a tcpip.Address) tcpip.Address {
+	return tcpip.Address("\x00\x00\x00\x00\x00\x00\x00\x00\x00\x00\xff\xff" + string(a))
+}
+
+var c09DualKinds = []c09DualKind{
+	{"v4 *:P", false, false, "", true, false, 1},
+	{"v4 A1:P", false, false, c09A1, true, false, 2},
+	{"v6 dual-stack [::]:P", true, false, "", true, true, 1},
+	{"v6 dual-stack [::ffff:0.0.0.0]:P", true, false, c09Mapped("\x00\x00\x00\x00"), true, false, 1},
+	{"v6 dual-stack [::ffff:A1]:P", true, false, c09Mapped(c09A1), true, false, 2},
+	{"v6-only [::]:P", true, true, "", false, true, 1},
+	{"v6 [A6]:P", true, false, addrA6, false, true, 2},
+}
+
+func c09DualNames() []string {
+	var out []string
+	for _, k := range c09DualKinds {
+		out = append(out, k.name)
+	}
+	return out
+}
+
+// c09Dual opens kind a (and then kind b, if b >= 0) and sends one IPv4 and one IPv6 datagram
+// to port P; ok=false if the stack refuses the combination.
+func c09Dual(a, b int) (*c09Fail, bool) {
+	c := c09NewWorldN(1)
+	defer c.close()
+	var eps []tcpip.Endpoint
+	var kinds []c09DualKind
+	defer func() {
+		for _, ep := range eps {
+			ep.Close()
+		}
+	}()
+	for _, ki := range []int{a, b} {
+		if ki < 0 {
+			continue
+		}
+		k := c09DualKinds[ki]
+		netp := tcpip.NetworkProtocolNumber(ipv4.ProtocolNumber)
+		if k.v6sock {
+			netp = ipv6.ProtocolNumber
+		}
+		sk := c.r.n.NewSock(udp.ProtocolNumber, netp)
+		eps = append(eps, sk.EP)
+		if k.v6only {
+			if err := sk.EP.SetSockOpt(tcpip.V6OnlyOption(1)); err != nil {
+				return nil, false
+			}
+		}
+		if err := sk.EP.Bind(tcpip.FullAddress{Addr: k.addr, Port: c09P}, nil); err != nil {
+			return nil, false
+		}
+		kinds = append(kinds, k)
+	}
+	c.r.w.Settle()
+	name := kinds[0].name
+	if len(kinds) > 1 {
+		name += " then " + kinds[1].name
+	}
+	for _, v6 := range []bool{false, true} {
+		payload := []byte("family-probe-4")
+		var pkt []byte
+		proto := tcpip.NetworkProtocolNumber(ipv4.ProtocolNumber)
+		if v6 {
+			payload = []byte("family-probe-6")
+			proto = ipv6.ProtocolNumber
+			pkt = ref.BuildIPv6([]byte(addrB6), []byte(addrA6), ref.ProtoUDP, 64, ref.BuildUDP(c09Q, c09P, payload, []byte(addrB6), []byte(addrA6)))
+		} else {
+			pkt = ref.BuildIPv4([]byte(c09R), []byte(c09A1), ref.ProtoUDP, 9, 0, 0, 64, ref.BuildUDP(c09Q, c09P, payload, []byte(c09R), []byte(c09A1)))
+		}
+		c.r.w.Inject(c.r.n, 1, proto, pkt, "", "")
+		c.r.Collect()
+		want, bestRank := -1, 0
+		for i, k := range kinds {
+			if (v6 && k.getsV6 || !v6 && k.getsV4) && k.rank > bestRank {
+				want, bestRank = i, k.rank
+			}
+		}
+		for i, ep := range eps {
+			v, _, err := ep.Read(nil)
+			got := err == nil
+			if got && string(v) != string(payload) {
+				return &c09Fail{"wrong-payload", fmt.Sprintf("[%s]: socket %s read %q", name, kinds[i].name, v)}, true
+			}
+			fam := map[bool]string{false: "IPv4", true: "IPv6"}[v6]
+			if got && i != want {
+				return &c09Fail{"wrong-family-delivery", fmt.Sprintf("[%s]: the %s datagram to port P was delivered to %s, which is not bound for it", name, fam, kinds[i].name)}, true
+			}
+			if !got && i == want {
+				return &c09Fail{"family-not-delivered", fmt.Sprintf("[%s]: the %s datagram to port P was not delivered to %s", name, fam, kinds[i].name)}, true
+			}
+		}
+	}
+	return nil, true
+}
+
 // c09Shadow: a connected socket is more specific than any listener, also when the listener is
 // opened later on the very port the connection uses. variant 0: no listener, 1: listener on
 // *:port, 2: listener on A1:port.
@@ -821,7 +931,7 @@ func c09Jobs(tier string) []string {
 	for name := range c09Progs {
 		jobs = append(jobs, "coop:"+name)
 	}
-	jobs = append(jobs, "shadow")
+	jobs = append(jobs, "shadow", "dual")
 	return jobs
 }
 
@@ -834,6 +944,28 @@ func c09Run(job, tier string, deadline time.Time) *engine.Result {
 		}
 		r.Outcomes = append(r.Outcomes, engine.Hash(job, len(r.Violations)))
 	}()
+	if job == "dual" {
+		n := len(c09DualKinds)
+		for a := 0; a < n; a++ {
+			for b := -1; b < n; b++ {
+				if b == a {
+					continue
+				}
+				f, ok := c09Dual(a, b)
+				if !ok {
+					continue
+				}
+				r.Execs++
+				r.Transitions += 2
+				r.Nontrivial++
+				if f != nil && len(r.Violations) < 4 {
+					r.Violations = append(r.Violations, engine.Violation{Property: "C09", Kind: "demux", Key: f.key, Detail: f.msg, Job: job, Replay: engine.MustJSON(map[string]interface{}{"dual": []int{a, b}})})
+				}
+			}
+		}
+		r.Sample(map[string]interface{}{"dual": "UDP sockets of kinds " + strings.Join(c09DualNames(), ", ") + " alone and in ordered pairs; one IPv4 and one IPv6 datagram to port P"})
+		return r
+	}
 	if job == "shadow" {
 		for v := 0; v < 3; v++ {
 			f := c09Shadow(v)
@@ -959,6 +1091,15 @@ func c09Replay(rp json.RawMessage) *engine.Violation {
 	var cr engine.CoopReplay
 	if json.Unmarshal(rp, &cr) == nil && strings.HasPrefix(cr.Job, "coop:") {
 		return engine.ReplayCoop(c09Harness(c09Progs[cr.Job[5:]]), cr.Choices)
+	}
+	var du struct {
+		Dual []int `json:"dual"`
+	}
+	if json.Unmarshal(rp, &du) == nil && len(du.Dual) == 2 {
+		if f, _ := c09Dual(du.Dual[0], du.Dual[1]); f != nil {
+			return &engine.Violation{Property: "C09", Kind: "demux", Key: f.key, Detail: f.msg}
+		}
+		return nil
 	}
 	var sh struct {
 		Shadow int `json:"shadow"`
